@@ -541,9 +541,8 @@ def form_exts(c, exts):
         return exts
     out, kinds = [], set()
     for e in exts:
-        # a dtype that also holds e + 1: ccube computes its working shape as e + 1 in the entry's own type and wraps at the
-        # dtype maximum (notes FORM FINDINGS 5: candidate finding, not generated)
-        cands = forms.int_dtypes_holding([int(e) + 1])
+        # any integer dtype holding e - at its maximum included (uint8 255: ccube's e + 1 margin slot, repaired as F27)
+        cands = forms.int_dtypes_holding([int(e)])
         if frng.random() < 0.85 and cands:
             d = frng.choice(cands)
             v, t = numpy.dtype(d).type(int(e)), "numpy." + d
